@@ -27,8 +27,9 @@ theorem generated_matches_model :
     BandVerif.Generated.Grogu.src_submitterStart = BandVerif.ExpectedSrc.Grogu.src_submitterStart ∧
     BandVerif.Generated.Grogu.src_submitPrice = BandVerif.ExpectedSrc.Grogu.src_submitPrice ∧
     BandVerif.Generated.Grogu.src_removePending = BandVerif.ExpectedSrc.Grogu.src_removePending ∧
-    BandVerif.Generated.Grogu.src_SubmitSignalPrices = BandVerif.ExpectedSrc.Grogu.src_SubmitSignalPrices := by
-  refine ⟨rfl, rfl, ?_, ?_, ?_, ?_, ?_, ?_, ?_, ?_, ?_, ?_, ?_, ?_, ?_, ?_⟩ <;> rfl
+    BandVerif.Generated.Grogu.src_SubmitSignalPrices = BandVerif.ExpectedSrc.Grogu.src_SubmitSignalPrices ∧
+    BandVerif.Generated.Grogu.src_getMaxBlockHeightResponse = BandVerif.ExpectedSrc.Grogu.src_getMaxBlockHeightResponse := by
+  refine ⟨rfl, rfl, ?_, ?_, ?_, ?_, ?_, ?_, ?_, ?_, ?_, ?_, ?_, ?_, ?_, ?_, ?_⟩ <;> rfl
 
 /-- PROPERTY (only what the chain accepts): whenever the signaller decides to submit a price for a signal, the signal is a
     current feed and — for any block time not more than TimeBuffer seconds behind the signaller's clock — the chain's
@@ -119,6 +120,56 @@ theorem prompt_on_change (cooldown : Int) (h dpOffset dpStart : Nat) (f : Feed) 
 theorem deviation_exact (bp : Int) (old new : Nat) (ho : old ≠ 0) :
     isDeviated bp old new = true ↔ bp * (old : Int) ≤ ((if new ≥ old then new - old else old - new : Nat) : Int) * 10000 := by
   unfold isDeviated; rw [if_neg ho, decide_eq_true_eq]
+
+/-- quotient test without division: `k ≤ n / m ↔ k·m ≤ n` lifted to the integer form of the model -/
+theorem le_div_iff_int (k n m : Nat) (hm : 0 < m) : (k ≤ n / m) ↔ ((k : Int) * (m : Int) ≤ (n : Int)) := by
+  rw [Nat.le_div_iff_mul_le hm]
+  constructor
+  · intro h; have : ((k * m : Nat) : Int) ≤ (n : Int) := Int.ofNat_le.mpr h; rwa [Int.natCast_mul] at this
+  · intro h; apply Int.ofNat_le.mp; rw [Int.natCast_mul]; exact h
+
+/-- the Go routine (128-bit integer arithmetic, `W` = 2^64) IS the exact test, for every pair of prices below `W` and every
+    threshold below `W` -/
+theorem go_deviation_is_exact_gen (W : Nat) (_hW : 0 < W) (bp : Int) (old d : Nat) (h0 : old ≠ 0) (hb : bp ≤ (W : Int)) :
+    (if d * 10000 / W ≥ old then true
+     else decide (bp ≤ 0) || decide (bp.toNat ≤ (d * 10000 / W * W + d * 10000 % W) / old)) =
+    decide (bp * (old : Int) ≤ ((d : Nat) : Int) * 10000) := by
+  have hre : d * 10000 / W * W + d * 10000 % W = d * 10000 := by
+    have := Nat.div_add_mod (d * 10000) W; rw [Nat.mul_comm] at this; exact this
+  have hold : 0 < old := Nat.pos_of_ne_zero h0
+  have hcast : ((d : Nat) : Int) * 10000 = ((d * 10000 : Nat) : Int) := by rw [Int.natCast_mul]; rfl
+  rw [hcast]
+  by_cases hbn : bp ≤ 0
+  · have hneg : bp * (old : Int) ≤ 0 := Int.mul_nonpos_of_nonpos_of_nonneg hbn (Int.natCast_nonneg _)
+    have hpos : (0 : Int) ≤ ((d * 10000 : Nat) : Int) := Int.natCast_nonneg _
+    have : bp * (old : Int) ≤ ((d * 10000 : Nat) : Int) := Int.le_trans hneg hpos
+    simp only [hbn, this, decide_true, Bool.true_or, ite_self]
+  · obtain ⟨k, rfl⟩ : ∃ k : Nat, bp = (k : Int) := ⟨bp.toNat, by omega⟩
+    have hk : k ≤ W := by exact_mod_cast hb
+    simp only [hbn, decide_false, Bool.false_or, Int.toNat_natCast]
+    by_cases hhi : d * 10000 / W ≥ old
+    · rw [if_pos hhi]
+      symm
+      rw [decide_eq_true_eq]
+      have h1 : old * W ≤ d * 10000 := Nat.le_trans (Nat.mul_le_mul_right W hhi) (Nat.div_mul_le_self _ _)
+      have h2 : k * old ≤ old * W := by rw [Nat.mul_comm old W]; exact Nat.mul_le_mul_right old hk
+      have h3 : ((k * old : Nat) : Int) ≤ ((d * 10000 : Nat) : Int) := Int.ofNat_le.mpr (Nat.le_trans h2 h1)
+      rwa [Int.natCast_mul] at h3
+    · rw [if_neg hhi, hre]
+      exact decide_eq_decide.mpr (le_div_iff_int k (d * 10000) old hold)
+
+theorem go_deviation_is_exact (bp : Int) (old new : Nat) (hb : bp ≤ 18446744073709551616) :
+    isDeviatedGo bp old new = isDeviated bp old new := by
+  unfold isDeviatedGo isDeviated
+  by_cases h0 : old = 0
+  · simp [h0]
+  · rw [if_neg h0, if_neg h0]
+    have hdiff : (if new < old then old - new else new - old) = (if new ≥ old then new - old else old - new) := by
+      by_cases c : new < old
+      · rw [if_pos c, if_neg (by omega)]
+      · rw [if_neg c, if_pos (by omega)]
+    simp only [hdiff]
+    exact go_deviation_is_exact_gen 18446744073709551616 (by decide) bp old _ h0 hb
 
 /-- nothing is submitted before the cooldown + buffer has passed, and nothing for signals outside the current feeds -/
 theorem never_early (cooldown : Int) (h dpOffset dpStart : Nat) (f : Feed) (o : OldPrice) (new : NewPrice) (now : Int)
@@ -280,5 +331,49 @@ theorem decided_batch_accepted_by_handler (cooldown : Int) (h dpOffset dpStart :
   rcases this.2 with a | b
   · left; simpa using a
   · right; exact of_decide_eq_true b
+
+/-- what one query does to the shared maximum: it never decreases, and a returned height IS the new maximum -/
+theorem queryStep_spec (maxH : Nat) (answers : List (Option Nat)) :
+    maxH ≤ (queryStep maxH answers).1 ∧ ∀ h, (queryStep maxH answers).2 = some h → h = (queryStep maxH answers).1 ∧ maxH ≤ h := by
+  unfold queryStep
+  simp only []
+  split
+  · exact ⟨Nat.le_refl _, fun h hh => by cases hh⟩
+  · split
+    · exact ⟨Nat.le_refl _, fun h hh => by cases hh⟩
+    · rename_i h2
+      refine ⟨by omega, fun h hh => ?_⟩
+      simp only [Option.some.injEq] at hh
+      subst hh
+      exact ⟨rfl, by omega⟩
+
+/-- PROPERTY (grogu never decides on an older chain state than one it has already seen): over ANY run of multi-node queries
+    — any number of nodes, any of them lagging or down at any time — the heights of the answers the helper returns never
+    decrease, and none is below the maximum the run started with.  (Seed C20-9 replaces load-compare-store by a swap:
+    a refused stale answer lowers the maximum and the next stale answer is returned.) -/
+theorem chain_view_never_goes_back (maxH : Nat) (calls : List (List (Option Nat))) :
+    (queryRun maxH calls).Pairwise (· ≤ ·) ∧ ∀ h ∈ queryRun maxH calls, maxH ≤ h := by
+  induction calls generalizing maxH with
+  | nil => exact ⟨List.Pairwise.nil, fun h hh => by cases hh⟩
+  | cons a rest ih =>
+    obtain ⟨s1, s2⟩ := queryStep_spec maxH a
+    unfold queryRun
+    cases hq : queryStep maxH a with
+    | mk m r =>
+      rw [hq] at s1 s2
+      simp only [] at s1 s2
+      obtain ⟨i1, i2⟩ := ih m
+      cases r with
+      | none => exact ⟨i1, fun h hh => Nat.le_trans s1 (i2 h hh)⟩
+      | some h0 =>
+        obtain ⟨e, le⟩ := s2 h0 rfl
+        subst e
+        refine ⟨List.Pairwise.cons (fun x hx => i2 x hx) i1, ?_⟩
+        intro h hh
+        rcases List.mem_cons.mp hh with e | e
+        · subst e; exact le
+        · exact Nat.le_trans s1 (i2 h e)
+
+example : queryRun 0 [[some 101, some 100], [none, some 100], [none, some 100], [some 102, none]] = [101, 102] := by decide
 
 end C20
